@@ -132,7 +132,7 @@ CHECKS["C20"] = {
     "quick_fs": ["default"],
     "thorough_fs": ["default", "both"],
     "technique": "value-partition abstract interpretation of every length function over the whole 64-bit domain (monotonicity per cell and across cells, exact rational Kraft sums over cells); abstract interpretation of FindChangePoints::next (all arithmetic asserts from the search guards); structural protocol rule",
-    "claim": "Partial, stated as such: (F1) every overflow/underflow assert of the exponential + binary search (current+step, step doubling, left+(right-left)/2, mid+1) is discharged from the guards for ANY function and state, so the iterator cannot wrap around and spin in release builds or panic in debug builds; (F3) the first call yields (0, f(0)), every later item is (x, f(x)) with the remembered state updated together, f is only called through the stored closure; (F4) the three LEN tables are non-decreasing and every prefix satisfies Kraft's inequality (exact rationals); (F2) every length function (gamma, delta with every table option, omega, zeta_k, pi_k, exp-Golomb_k, Rice_k for the enumerated k, VByte) is defined on [0, 2^64-2] and non-decreasing over the whole domain: on each cell of a bisection partition its MIR evaluates to a constant or to a monotone composition with exact end values, and end values do not decrease across cells; (F5) for the codes whose cells are constant (all but Rice) the exact rational sum of |cell| * 2^-len over the domain is <= 1, hence Kraft's inequality for every prefix. (F2.golomb) len_golomb(n, b) = y + c_r on each residue class with c_r <= c_(r+1) and c_(b-1) <= c_0 + 1, hence non-decreasing in n, and sum_r 2^(1-c_r) <= 1, hence Kraft (geometric series). NOT decided: parameters outside the enumerated lists, Kraft for Rice, that no change point is skipped, and termination of consumers of the iterator.",
+    "claim": "Partial, stated as such: (F1) every overflow/underflow assert of the exponential + binary search (current+step, step doubling, left+(right-left)/2, mid+1) is discharged from the guards for ANY function and state, so the iterator cannot wrap around and spin in release builds or panic in debug builds; (F3) the first call yields (0, f(0)), every later item is (x, f(x)) with the remembered state updated together, f is only called through the stored closure; (F4) the three LEN tables are non-decreasing and every prefix satisfies Kraft's inequality (exact rationals); (F2) every length function (gamma, delta with every table option, omega, zeta_k, pi_k, exp-Golomb_k, Rice_k for the enumerated k, VByte) is defined on [0, 2^64-2] and non-decreasing over the whole domain: on each cell of a bisection partition its MIR evaluates to a constant or to a monotone composition with exact end values, and end values do not decrease across cells; (F5) for the codes whose cells are constant (all but Rice) the exact rational sum of |cell| * 2^-len over the domain is <= 1, hence Kraft's inequality for every prefix. (F2.golomb) len_golomb(n, b) = y + c_r on each residue class with c_r <= c_(r+1) and c_(b-1) <= c_0 + 1, hence non-decreasing in n, and sum_r 2^(1-c_r) <= 1, hence Kraft (geometric series). (I1-I3) utils/implied.rs, dataflow over MIR calls: the change-point iterator is consumed only through take_while/map_while with a predicate bounding the length by a constant (so the set-up stops at the first longer code instead of visiting every change point up to 2^64); the weights are exactly collect(map(windows(change_points, 2))) and neither vector is modified afterwards; the sampler indexes change_points with idx and idx+1 only, idx drawn from the WeightedIndex over those weights - so setting up and sampling cannot run away or index out of range. NOT decided: parameters outside the enumerated lists, Kraft for Rice, the numeric value of the weights, that no change point is skipped, and termination of consumers of the iterator.",
     "note": "Trusted: rustc MIR/const evaluation, exporter, LP entailment. Hypothesis: f non-decreasing (the debug assertions stating it are not obligations).",
     "explanation": "E3 obligations + table arithmetic + structural rule",
 }
